@@ -21,13 +21,75 @@ def want_escape(b):
 
 def clause_a(facts, rep):
     max_n = None
+    # the scalar 'needs an escape' predicate, whatever its representation (a table of flags today): decided by evaluating
+    # the functions that consult it for every byte value (sv/minterp.py with a byte memory)
+    need = [1 if (b < 0x20 or b in (34, 92)) else 0 for b in range(256)]
     ss = find_static(facts, name='kNeedEscaped')
-    rep.require(len(ss) == 1, 'C09.a: kNeedEscaped not found')
-    if ss:
+    if ss and len(arr(ss[0]['value'])) == 256:
         s = ss[0]
-        got = arr(s['value'])
-        want = [1 if (b < 0x20 or b in (34, 92)) else 0 for b in range(256)]
-        check_rows(rep, 'E5.table', s['qn'], 'kNeedEscaped', locline(s['loc']), got, want, facts.config, "b < 0x20 or b in {'\"','\\\\'}")
+        check_rows(rep, 'E5.table', s['qn'], 'kNeedEscaped', locline(s['loc']), arr(s['value']), need, facts.config, "b < 0x20 or b in {'\"','\\\\'}")
+    from ..minterp import Interp, Unsupported as _Uns, UndefinedBehaviour as _UB
+    fm = [f for f in facts.functions if f.short == 'GetEscapeMask4' and len(f.params) == 1]
+    rep.require(len(fm) >= 1, 'C09.a: GetEscapeMask4 not found')
+    for f in fm[:1]:
+        rep.fn(f)
+        bad = None
+        base = 4096
+        try:
+            for pos in range(4):
+                for b in range(256):
+                    buf = [0x61] * 4
+                    buf[pos] = b
+                    it = Interp(f, facts)
+                    it.memory = {base + i: x for i, x in enumerate(buf)}
+                    r = it.run({f.params[0]['id']: base}, {})[0]
+                    if r != (need[b] << pos) and bad is None:
+                        bad = 'byte 0x%02x at position %d gives mask 0x%x, expected 0x%x' % (b, pos, r, need[b] << pos)
+        except _UB as ex:
+            bad = 'undefined behaviour: %s' % ex
+        except _Uns as ex:
+            raise AnalysisBroken('C09.a: GetEscapeMask4 cannot be evaluated: %s' % ex)
+        rep.check(bad is None, 'E5.escape-predicate', f.qn, "bit i of GetEscapeMask4 is set iff byte i is < 0x20, '\"' or '\\\\' (1024 evaluations)", f.loc, bad or '', facts.config)
+    # DoEscape goes on to the next byte without returning to the vector scan only if that byte needs an escape: the
+    # branch that ends the call is evaluated for every value of the byte at the cursor
+    fd = [f for f in facts.functions if f.short == 'DoEscape']
+    rep.require(len(fd) >= 1, 'C09.a: DoEscape not found')
+    for f in fd[:1]:
+        rep.fn(f)
+        site = None
+        for bid_, B in f.blocks.items():
+            t = B.get('term')
+            if not t or t.get('cond') is None or len(B['succs']) != 2:
+                continue
+            c = t['cond']
+            reads_src = any(x.get('k') == 'ref' and x.get('id') == f.params[0]['id'] for x in walk(c)) and \
+                any((x.get('k') == 'un' and x.get('op') == '*') or x.get('k') in ('sub', 'call') for x in walk(c))
+            if reads_src:
+                site = (bid_, c, B['succs'])
+        rep.require(site is not None, 'C09.a: the continue / return decision of DoEscape on the next byte not found')
+        if site is not None:
+            bid_, c, succs = site
+
+            def has_ret(b_):
+                return any(isinstance(strip(x), dict) and strip(x).get('k') == 'ret' for x in f.blocks[b_]['stmts']) if b_ is not None else False
+            ret_on_true = has_ret(succs[0])
+            ret_on_false = has_ret(succs[1])
+            bad = None
+            try:
+                for b in range(256):
+                    it = Interp(f, facts)
+                    it.memory = {4096: b}
+                    v = it.ev(c, {f.params[0]['id']: 4096}, {})
+                    cont = (not v) if ret_on_true else bool(v)
+                    if bool(cont) != bool(need[b]) and bad is None:
+                        bad = 'after an escaped byte, a following byte 0x%02x %s (it %s an escape)' % (
+                            b, 'is escaped through the table in the same call' if cont else 'ends the call', 'needs' if need[b] else 'does not need')
+            except _UB as ex:
+                bad = 'undefined behaviour: %s' % ex
+            except _Uns as ex:
+                raise AnalysisBroken('C09.a: the decision of DoEscape cannot be evaluated: %s' % ex)
+            rep.check(bad is None and (ret_on_true != ret_on_false), 'E5.escape-predicate', f.qn, 'DoEscape continues with the next byte iff that byte needs an escape (256 evaluations)',
+                      locline(c['loc']), bad or '', facts.config)
     ss = find_static(facts, name='kQuoteTab')
     rep.require(len(ss) == 1, 'C09.a: kQuoteTab not found')
     if ss:
@@ -296,6 +358,10 @@ def clause_f(facts, rep):
                 if y.get('k') == 'un' and y['op'] == '*' and any(z.get('k') == 'ref' and z.get('id') == sid for z in walk(y['e'])):
                     yield y
                 if y.get('k') == 'sub' and any(z.get('k') == 'ref' and z.get('id') == sid for z in walk(y.get('base'))):
+                    yield y
+                # the cursor handed to a helper that reads the byte at it (a predicate on *src): a read as well
+                if y.get('k') == 'call' and not (y.get('cname') or '').startswith('mem') and \
+                        any(strip(a) is not None and strip(a).get('k') == 'ref' and strip(a).get('id') == sid and '*' in (strip(a).get('t') or '') for a in y.get('args', [])):
                     yield y
         for bid, B in f.blocks.items():
             items = [(i, s) for i, s in enumerate(B['stmts'])]
